@@ -28,18 +28,48 @@ def run_mutant(c, m, t_full=20000):
     return failed
 
 
+def _one(job):
+    import importlib
+    cname, m = job
+    from . import runner, api
+    runner.load_contracts()
+    c = api.BY_NAME[cname]
+    t0 = time.time()
+    label = f"{m['old']} -> {m['new']} (#{m.get('occurrence', 1)})"
+    try:
+        cx = verify.verify_function(c, mutate=text_mutator(m["old"], m["new"], m.get("occurrence", 1)), canary=False)
+    except AttachError as e:
+        return {"function": cname, "mutant": label, "detected": False, "attach_error": str(e)}
+    except Unsupported as e:
+        return {"function": cname, "mutant": label, "detected": False, "error": str(e)}
+    jobs = []
+    for oi, o in enumerate(cx.obls):
+        qf = None if smt.has_quant(o.goal) else smt.to_smt2([], o.hyps, o.goal, qf_only=True)
+        jobs.append((oi, qf, smt.to_smt2(cx.axioms, o.hyps, o.goal), 4000, 15000, False, False))
+    failing = []
+    for j in jobs:
+        r = smt._solve(j)
+        if r[1] != "unsat":
+            failing.append(f"{cx.obls[r[0]].oid}:{r[1]}")
+            if len(failing) >= 2:
+                break
+    return {"function": cname, "mutant": label, "detected": bool(failing), "failing": failing, "time_s": round(time.time() - t0, 1)}
+
+
 def self_test(res, contracts, log):
-    for c in contracts:
-        for m in c.mutants:
-            t0 = time.time()
-            try:
-                failed = run_mutant(c, m)
-                entry = {"function": c.name, "mutant": f"{m['old']} -> {m['new']} (#{m.get('occurrence', 1)})",
-                         "detected": bool(failed), "failing": [f"{o.oid}:{o.status}" for o in failed[:4]],
-                         "time_s": round(time.time() - t0, 1)}
-            except (Unsupported, AttachError) as e:
-                entry = {"function": c.name, "mutant": f"{m['old']} -> {m['new']}", "detected": False, "error": str(e)}
-            res.mutants.append(entry)
-            log(f"  mutant {entry['function']}: {entry['mutant']}: " + ("detected " + ",".join(entry.get("failing", [])) if entry["detected"] else "NOT DETECTED " + entry.get("error", "")))
-            if not entry["detected"]:
-                res.errors.append(("vacuous", f"mutant not detected: {entry['function']} {entry['mutant']}"))
+    import multiprocessing as mp
+    jobs = [(c.name, m) for c in contracts for m in c.mutants]
+    if not jobs:
+        return
+    with mp.Pool(min(16, len(jobs))) as pool:
+        results = pool.map(_one, jobs, chunksize=1)
+    for entry in results:
+        res.mutants.append(entry)
+        if entry["detected"]:
+            log(f"  mutant {entry['function']}: {entry['mutant']}: detected " + ",".join(entry["failing"]))
+        elif "attach_error" in entry:
+            log(f"  mutant {entry['function']}: {entry['mutant']}: contract no longer attaches ({entry['attach_error']}) — "
+                "on /repo this triggers the native runtime-contract search")
+        else:
+            log(f"  mutant {entry['function']}: {entry['mutant']}: NOT DETECTED " + entry.get("error", ""))
+            res.errors.append(("vacuous", f"mutant not detected: {entry['function']} {entry['mutant']}"))
